@@ -143,7 +143,7 @@ def run_shard(ctx: Ctx) -> None:
         if msg:
             raise Violation(msg, {"schema_text": text, "pickle": pickle_b64((s, vals))})
 
-    hyp_run(ctx, c03.program(ctx.tier, ctx.pick(12, 60)), body, ctx.n(32, 320), shrink_cap=8, tag="c13")
+    hyp_run(ctx, c03.program(ctx.tier, ctx.pick(12, 60)), body, ctx.n(48, 320), shrink_cap=8, tag="c13")
 
 
 def replay(c: Dict[str, Any]) -> Optional[str]:
